@@ -599,6 +599,7 @@ def _esccpy_out(prog, text, cache={}):
                 if ix is None or v is None:
                     raise AnalysisBroken("esccpy: a store into the target could not be followed (%s)" % show(x)[:50])
                 out[ix] = v
+                upd["%s[%d]" % (tgt, ix)] = v       # what has been written can be read back (a trailing-blank trimmer looks at it)
                 ch = True
         if ch:
             upd["$out"] = tuple(sorted(out.items()))
@@ -632,8 +633,9 @@ def r10_7(prog, rep, rid="R10.7", which=("cut", "kept")):
     def o2s(o):
         return "".join(names.get(chr(v), chr(v)) for v in o)
     if "cut" in which:
-        bad = []
-        n = nbad = 0
+        cname = {"\\": "backslash", "n": "n", ",": "comma", "\n": "LF", " ": "blank", "x": "other", "\r": "CR"}
+        bad = {c: [] for c in alpha}
+        tot = {c: 0 for c in alpha}
         for L in (2, 3, 4):
             for t in itertools.product(alpha, repeat=L):
                 s_ = "".join(t)
@@ -642,21 +644,22 @@ def r10_7(prog, rep, rid="R10.7", which=("cut", "kept")):
                     continue
                 whole = _esccpy_out(prog, s_)
                 for k in range(1, L):
-                    n += 1
+                    last = s_[k - 1]
+                    tot[last] += 1
                     parts = _esccpy_out(prog, s_[:k]) + _esccpy_out(prog, s_[k:])
                     if parts != whole:
-                        nbad += 1
-                        if len(bad) < 400:
-                            bad.append((s_, k, whole, parts))
-        key = "esccpy/output-independent-of-the-cut"
-        if bad:
-            bad.sort(key=lambda b_: (len(b_[0]), b_[0]))
-            ex = "; ".join("`%s` whole -> `%s`, cut after %d -> `%s`" % (pretty(b_[0]), o2s(b_[2]), b_[1], o2s(b_[3])) for b_ in bad[:3])
-            rep.fail(rid, key, f.loc(), "what esccpy() writes depends on where a line is cut into pieces (%d of %d string/cut pairs over the seven byte classes "
-                     "differ, e.g. %s): an escape pair or a line break with its fold blank that straddles two reads of the descriptor is read differently "
-                     "from one that arrives in one piece" % (nbad, n, ex), {"examples": [[pretty(b_[0]), b_[1], o2s(b_[2]), o2s(b_[3])] for b_ in bad[:20]]})
-        else:
-            rep.ok(rid, key, f.loc(), "%d string/cut pairs over the seven byte classes: the parts give what the whole gives" % n)
+                        bad[last].append((s_, k, whole, parts))
+        # one instance per class of the byte in front of the cut: a new way of depending on the cut is a new report
+        for c in alpha:
+            key = "esccpy/cut-after-%s" % cname[c]
+            if bad[c]:
+                bad[c].sort(key=lambda b_: (len(b_[0]), b_[0]))
+                ex = "; ".join("`%s` whole -> `%s`, cut after %d -> `%s`" % (pretty(b_[0]), o2s(b_[2]), b_[1], o2s(b_[3])) for b_ in bad[c][:3])
+                rep.fail(rid, key, f.loc(), "what esccpy() writes depends on whether a piece ends behind a %s (%d of %d string/cut pairs over the seven byte "
+                         "classes differ, e.g. %s): the same line is read differently depending on how the transport cut it" % (
+                             cname[c], len(bad[c]), tot[c], ex), {"examples": [[pretty(b_[0]), b_[1], o2s(b_[2]), o2s(b_[3])] for b_ in bad[c][:20]]})
+            else:
+                rep.ok(rid, key, f.loc(), "%d string/cut pairs with a %s in front of the cut: the parts give what the whole gives" % (tot[c], cname[c]))
     if "kept" in which:
         key = "esccpy/escaped-byte-kept"
         outs = {}
@@ -685,6 +688,6 @@ def run(prog, rep, tier, snap):
     rep.call(r10_6, prog, rep)
     rep.rule("R10.5", "where a piece ends does not decide what comes out (escape copier, start of a parse)", 2)
     rep.call(r10_5, prog, rep)
-    rep.rule("R10.7", "what the escape copier writes does not depend on where the line is cut", 1)
+    rep.rule("R10.7", "what the escape copier writes does not depend on where the line is cut", 7)
     rep.call(r10_7, prog, rep, "R10.7", ("cut",))
 READY = True
